@@ -445,6 +445,83 @@ def fit_uses_the_gradient(ctx: Ctx) -> None:
                               {"feats": feats, "gradient_present_before_fit": stale, "relative_error": worst})
 
 
+def stochastic_layers(ctx: Ctx) -> None:
+    """A model with a stochastic layer (Dropout) in training mode: with the random stream re-seeded before every evaluation the loss
+    is a deterministic function of the parameters, and its back-propagated gradient is the derivative of THAT function (the masks
+    of the backward pass are the masks of the forward pass) - both evaluation branches."""
+    from pfhedge.instruments import BrownianStock, EuropeanOption
+    from pfhedge.nn import EntropicRiskMeasure, Hedger
+    for feats in (["log_moneyness", "time_to_maturity", "volatility"], ["log_moneyness", "time_to_maturity", "prev_hedge"]):
+        torch.manual_seed(ctx.seed + 61)
+        stock = BrownianStock(cost=1e-2, dt=1 / 20, dtype=DT)
+        deriv = EuropeanOption(stock, maturity=6 / 20)
+        deriv.simulate(n_paths=16)
+        model = torch.nn.Sequential(torch.nn.Linear(3, 8, dtype=DT), torch.nn.Tanh(), torch.nn.Dropout(0.5), torch.nn.Linear(8, 1, dtype=DT))
+        hedger = Hedger(model, list(feats), criterion=EntropicRiskMeasure(1.5))
+        hedger.train()
+
+        def loss_fn() -> torch.Tensor:
+            torch.manual_seed(977)
+            return hedger.criterion(hedger.compute_portfolio(deriv), deriv.payoff())
+        _fd_compare(ctx, f"fd:dropout:{'stepwise' if 'prev_hedge' in feats else 'batched'}", "a model with Dropout in training mode, the random stream re-seeded before every evaluation",
+                    loss_fn, list(model.parameters()), {"feats": feats})
+
+
+def failed_evaluations_restore_grad_mode(ctx: Ctx) -> None:
+    """An evaluation that raises half-way - the model raises inside price() / compute_loss(enable_grad=False) / the validation
+    step - leaves the thread's gradient mode as it found it: the next loss computed by the same hedger carries its graph and
+    the right gradient."""
+    from pfhedge.instruments import BrownianStock, EuropeanOption
+    from pfhedge.nn import EntropicRiskMeasure, Hedger
+
+    class Fault(Exception):
+        pass
+
+    for feats in (["log_moneyness", "time_to_maturity", "volatility"], ["log_moneyness", "time_to_maturity", "prev_hedge"]):
+        for what in ("price", "compute_loss(enable_grad=False)", "price(enable_grad=True)", "fit"):
+            torch.manual_seed(ctx.seed + 62)
+            stock = BrownianStock(cost=1e-2, dt=1 / 20, dtype=DT)
+            deriv = EuropeanOption(stock, maturity=6 / 20)
+            model = torch.nn.Sequential(torch.nn.Linear(3, 4, dtype=DT), torch.nn.Tanh(), torch.nn.Linear(4, 1, dtype=DT))
+            hedger = Hedger(model, list(feats), criterion=EntropicRiskMeasure(1.5))
+            calls = {"n": 0}
+
+            def boom(module, args):
+                calls["n"] += 1
+                if calls["n"] >= (3 if what == "fit" else 1):        # fit: the training pass goes through, the validation pass raises
+                    raise Fault()
+            handle = model.register_forward_pre_hook(boom)
+            was = torch.is_grad_enabled()
+            try:
+                if what == "price":
+                    hedger.price(deriv, n_paths=8)
+                elif what.startswith("compute_loss"):
+                    hedger.compute_loss(deriv, n_paths=8, enable_grad=False)
+                elif what.startswith("price("):
+                    hedger.price(deriv, n_paths=8, enable_grad=True)
+                else:
+                    if "prev_hedge" in feats:
+                        calls["n"] = -4                                 # (step by step: more calls per pass)
+                    hedger.fit(deriv, n_paths=8, n_epochs=2, verbose=False, optimizer=torch.optim.SGD(model.parameters(), lr=1e-3))
+            except Fault:
+                pass
+            else:
+                handle.remove()
+                raise MachineryError(f"failed_evaluations_restore_grad_mode: the injected fault did not reach the caller of {what}")
+            handle.remove()
+            ctx.count(("failed-eval", tuple(feats), what), n=1)
+            now = torch.is_grad_enabled()
+            torch.set_grad_enabled(was)                                  # (do not let a leak poison the rest of this check)
+            if now != was:
+                ctx.violation("gradmode:leaks-after-failed-evaluation", f"after {what} raised half-way torch.is_grad_enabled() is {now}; it was {was} before the call", {"feats": feats, "call": what})
+                continue
+            deriv.simulate(n_paths=8)
+            hedger.train()
+            loss = hedger.criterion(hedger.compute_portfolio(deriv), deriv.payoff())
+            if not loss.requires_grad:
+                ctx.violation("gradmode:no-graph-after-failed-evaluation", f"the loss computed after {what} raised half-way carries no graph", {"feats": feats, "call": what})
+
+
 def fit_uses_the_gradient_of_every_owned_parameter(ctx: Ctx) -> None:
     """... also for the parameters the supplied optimiser owns OUTSIDE the model: the w of an optimised certainty equivalent and
     the module behind a trainable ModuleOutput feature.  Their update is -lr times the gradient of the same loss, too."""
@@ -507,6 +584,8 @@ def check(ctx: Ctx) -> None:
     lazy_first_use(ctx)
     fit_uses_the_gradient(ctx)
     fit_uses_the_gradient_of_every_owned_parameter(ctx)
+    stochastic_layers(ctx)
+    failed_evaluations_restore_grad_mode(ctx)
     for r in recs:
         ctx.distinct.add(json.dumps([r["p1"], r["p2"], r["cfg"], r["crit"]]))
     ctx.sample(recs[0]); ctx.sample(recs[len(recs) // 2])
